@@ -223,10 +223,12 @@ func judgeDiagnostics(g *Graph, lk *Link, rd Rendered, ao drive.AnalyzeOut, v *v
 				}
 				v.res.Cover = append(v.res.Cover, "import:missing-module")
 			case "cycle":
+				// a cycle through several modules must be reported as a cycle (checked above); for a
+				// module that only imports itself any error naming the module is taken as the report
 				k := strings.Join(vd.CycleMods, ",")
-				for _, e := range here {
-					for _, cm := range vd.CycleMods {
-						if mentionsModule(e.msg, cm) {
+				if len(vd.CycleMods) == 1 {
+					for _, e := range here {
+						if mentionsModule(e.msg, mn) {
 							cycleSeen[k] = true
 						}
 					}
@@ -258,7 +260,7 @@ func judgeDiagnostics(g *Graph, lk *Link, rd Rendered, ao drive.AnalyzeOut, v *v
 			k := strings.Join(comp, ",")
 			if !cycleSeen[k] {
 				cycleSeen[k] = true
-				v.fail("analyzer:cycle-accepted", fmt.Sprintf("import cycle through modules {%s}: no error names a module of the cycle", k), nil)
+				v.fail("analyzer:cycle-accepted", fmt.Sprintf("import cycle through modules {%s}: no diagnostic reports the cycle", k), nil)
 			}
 		}
 	}
